@@ -26,6 +26,24 @@ Contract K.  wire(x) = what the server receives: the DBAPIs that %-format statem
   [sqlite]     (the lexer assumption made checkable, and the property as stated) `SELECT <r>` on the in-process sqlite3
                returns v; through a real Engine the rows of the literal_binds text, of the literal_execute statement and of
                the bound statement are identical and equal to the Python answer, for WHERE / IN / SELECT-list positions.
+  [source]     the literal depends only on the parameter's effective value and type, never on WHERE the value comes from.
+               Sources: bindparam(value) / literal() / bindparam(callable_=f) / the same with unique=True / a value (or a
+               value overriding a default) given later through Executable.params() / - on the Engine - given to
+               Connection.execute(); each also with literal_execute=True (post-compile rendering).
+      source-text   on every variant, for 14 statement forms (select list, WHERE =, IN list, expanding IN, INSERT VALUES,
+                    UPDATE SET..WHERE, DELETE WHERE, scalar subquery, CTE, UNION ALL, function argument, CASE, INSERT FROM
+                    SELECT, HAVING) that contain no other bound value: tokens(wire(literal text from source S)) ==
+                    tokens(wire(literal text from the plain value)); the plain value itself obeys [statement].
+      source-rows   on a SQLite Engine: rows (DML: table contents afterwards, rolled back) of (a) executing the statement
+                    built from S and (b) its literal_binds text == rows of bound execution of the plain-value statement.
+                    One compiled cache per source (cache-hit path exercised within a source, never across sources).
+      source-cache  two statements differing only in the source share a compiled-cache entry; the second must send ITS value.
+      orm-criteria  ORM-generated criteria (their parameters are callables reading the instance): C.par == obj, != obj, on an
+                    alias, filter_by(par=obj), P.kids.contains(obj), ~contains, with_parent() both directions, write-only
+                    collection .select(), and the lazy loader's own SELECT; x statement forms (WHERE, IN subquery, UNION, CTE,
+                    UPDATE..WHERE, DELETE..WHERE) x instance state (persistent, expired, detached, transient with key) x key
+                    family (integer, adversarial string, composite, many-to-many): rows of the literal_binds text == rows of
+                    Session.execute() with bound parameters (lazy-load: == the collection the loader returns).
   A processor may refuse a value (CompileError) - that is not a violation; rendering something else is.
 
 Scope Bd (exhaustive): alphabet { ' " \\ % : ; - a newline u-umlaut } (10 characters)
@@ -36,6 +54,12 @@ Scope Bd (exhaustive): alphabet { ' " \\ % : ; - a newline u-umlaut } (10 charac
   values      fixed boundary lists: 14 integers (0, +-1, +-2^31, +-2^63, 10^30, numeric strings), 34 floats / Decimals /
               numeric strings (0, -0.0, 5e-324, 1.797e308, 1e16, 1E+5, non-finite, '1_000', full-width digits), booleans,
               None, 17 datetimes / dates / times (min, max, microseconds 0/1/999999, leap day, tz-aware) x 11 variants
+  source      11 sources (+4 execution-time sources on the Engine) x 14 forms x values {all strings of length 0..1 (quick) /
+              0..2 (thorough), 6 longer adversarial strings, 4 integers, 2 floats, True, a datetime, None as String / Integer}
+              x 11 variants (text); the String / Integer / None values on the SQLite Engine; cache sharing: ordered pairs of
+              {value, callable, exec} (and their literal_execute forms) x 14 forms x 4 values
+  orm         11 criterion generators x 6 forms x 4 instance states x 3 instances x 4 key families (combinations the API
+              does not offer - e.g. UPDATE with a criterion on the other entity, write-only select of a transient - are skipped)
 """
 import datetime as dt
 import decimal
@@ -580,13 +604,15 @@ def source_engine_clause(eng, form, tname, v, caches, only=None):
             n += len(got)
             if any(g != want for g in got.values()):
                 out.append(_fail("source-rows", "literal_binds / literal_execute vs bound parameter on SQLite, by value source", "sqlite+pysqlite",
-                                 dict(value=_jsonable(v), form=form, type=tname, source=kind), want, got, sql=sql))
+                                 dict(value=_jsonable(v), form=form, type=tname, source=kind), want, got, sql=sql,
+                                 symptom="differs: " + "+".join(sorted(k for k, g in got.items() if g != want))))
             elif distinct:
                 nt += 1
     return out, n, nt
 
 
 CACHE_SOURCES = ["value", "callable", "exec", "lx-value", "lx-callable", "lx-exec"]
+CACHE_VALUES = [("String", "it's 100% \\ :x"), ("String", "'"), ("Integer", 2), ("Integer", 0)]
 
 
 def source_cache_clause(eng, form, tname, v, first, second):
@@ -917,6 +943,12 @@ def _work(task):
                 res["evals"] += n
                 res["nontrivial"] += nt
                 fails.extend(f)
+        eng.dispose()
+    elif kind == "source-cache":
+        _, vals, strs = task
+        eng = source_engine_setup(strs)
+        for tname, v in vals:
+            for form in SRC_FORMS:
                 for a in CACHE_SOURCES:
                     for b in CACHE_SOURCES:
                         if a != b and a.startswith("lx-") == b.startswith("lx-"):
@@ -975,9 +1007,11 @@ def run(run, tier, seed, args):
     src_eng_vals = [(t, v) for t, v in src_vals if t in ("String", "Integer")]
     for c in S.chunks(src_eng_vals, nj):
         tasks.append(("source-engine", c, src_strs))
+    for tv in CACHE_VALUES:
+        tasks.append(("source-cache", [tv], src_strs))
     for family in ORM_FAMILIES:
         tasks.append(("orm", family))
-    cost = {"strings": lambda t: len(t[2]), "statements": lambda t: len(t[2]), "engine": lambda t: len(t[1]) * 5,
+    cost = {"source-cache": lambda t: 3000, "strings": lambda t: len(t[2]), "statements": lambda t: len(t[2]), "engine": lambda t: len(t[1]) * 5,
             "source-text": lambda t: len(t[2]) * 300, "source-engine": lambda t: len(t[1]) * 600, "orm": lambda t: 4000}
     tasks.sort(key=lambda t: -cost.get(t[0], lambda t: 0)(t))
     res = S.pmap(_work, tasks)
@@ -1012,9 +1046,9 @@ def run(run, tier, seed, args):
               "0..%d; SQLite Engine executions for strings 0..%d; boundary value lists (module docstring); value sources %s "
               "(+ %s on the Engine) x %d statement forms %s x %d values (strings 0..%d + 6 adversarial, 4 integers, 2 floats, "
               "bool, datetime, None) x %d variants as text and on a SQLite Engine (String / Integer values); compiled-cache "
-              "sharing between sources %s; ORM criteria %s x forms %s x instance states %s x 3 instances x families %s; sqlite3 %s"
+              "sharing between sources %s (values %s); ORM criteria %s x forms %s x instance states %s x 3 instances x families %s; sqlite3 %s"
               % (ALPHABET, n_str, len(VARIANTS), sorted(FORMS), n_stmt, n_eng, SOURCES, EXEC_SOURCES, len(SRC_FORMS),
-                 sorted(SRC_FORMS), len(src_vals), 1 if quick else 2, len(VARIANTS), CACHE_SOURCES, sorted(ORM_CRITERIA),
+                 sorted(SRC_FORMS), len(src_vals), 1 if quick else 2, len(VARIANTS), CACHE_SOURCES, CACHE_VALUES, sorted(ORM_CRITERIA),
                  list(ORM_FORMS), list(ORM_STATES), list(ORM_FAMILIES), sqlite3.sqlite_version),
         sqlalchemy_tree=sqlalchemy.__file__,
     )
